@@ -34,6 +34,13 @@ Attach(s, P, m) ==
            sl  == IF pos <= Len(s.slots[P]) THEN [s.slots[P] EXCEPT ![pos] = m] ELSE Append(s.slots[P], m)
        IN Res("ok", {[s EXCEPT !.slots[P] = sl, !.index[m] = pos - 1, !.parent[m] = P]}, m)
 
+(* Project.attach_module(module, loading=True) - the reader's way: always the end, earlier empty positions stay empty *)
+(* (the only public way to an INTERIOR gap; files written by SunVox have them after modules were deleted)            *)
+AttachEnd(s, P, m) ==
+  IF s.parent[m] # 0 /\ s.parent[m] # P THEN Res("ModuleOwnershipError", {s}, m)
+  ELSE IF Has(s.slots[P], m) THEN Res("ok", {s}, m)
+  ELSE Res("ok", {[s EXCEPT !.slots[P] = Append(@, m), !.index[m] = Len(s.slots[P]), !.parent[m] = P]}, m)
+
 (* Project.attach_module(None): an explicit empty position *)
 AttachNone(s, P) == Res("ok", {[s EXCEPT !.slots[P] = Append(@, 0)]}, 0)
 
